@@ -531,3 +531,70 @@ package parser
 //@ loop 2
 //@ invariant forall k mathint :: 0 <= k && k < ncalls(unquoteChar) ==> callarg(unquoteChar, k, 2)
 //@ invariant n == len(old(s)) && (ncalls(unquoteChar) == 0 ==> len(s) == n - 6)
+
+// ---- C17: the positions the constructors record ---------------------------------------------------
+// Every position field of a node is the line/column of the byte offset of the token it belongs to:
+// one LnCol query per position, asked with that token's offset, stored in that field.
+//@ spec lcN() mathint = ncalls((*PosCache).LnCol)
+//@ spec lcArg(k int) token.Pos = callarg((*PosCache).LnCol, k, 1)
+//@ spec lcRes(k int) token.LnColPos = callres((*PosCache).LnCol, k, 0)
+
+//@ func (*parser).newBoolLiteral
+//@ props C17
+//@ ensures[C17] lcN() == 1 && lcArg(0) == pos && result != nil && result.NodeType == ast.TypeBoolLiteral && result.elem.(*ast.BoolLiteral).Start == lcRes(0)
+//@ func (*parser).newNilLiteral
+//@ props C17
+//@ ensures[C17] lcN() == 1 && lcArg(0) == pos && result != nil && result.NodeType == ast.TypeNilLiteral && result.elem.(*ast.NilLiteral).Start == lcRes(0)
+//@ func (*parser).newIdentifierLiteral
+//@ props C17
+//@ ensures[C17] lcN() == 1 && lcArg(0) == name.Pos && result != nil && result.NodeType == ast.TypeIdentifier && result.elem.(*ast.Identifier).Start == lcRes(0)
+//@ func (*parser).newStringLiteral
+//@ props C17
+//@ ensures[C17] lcN() == 1 && lcArg(0) == val.Pos && result.elem.(*ast.StringLiteral).Start == lcRes(0)
+//@ func (*parser).newParenExpr
+//@ props C17
+//@ ensures[C17] lcN() == 2 && lcArg(0) == lParen.Pos && lcArg(1) == rParen.Pos && result != nil && result.NodeType == ast.TypeParenExpr && result.elem.(*ast.ParenExpr).LParen == lcRes(0) && result.elem.(*ast.ParenExpr).RParen == lcRes(1)
+//@ func (*parser).newListLiteralStart
+//@ props C17
+//@ ensures[C17] lcN() == 1 && lcArg(0) == pos && result != nil && result.NodeType == ast.TypeListLiteral && result.elem.(*ast.ListLiteral).LBracket == lcRes(0)
+//@ func (*parser).newListLiteralEnd
+//@ props C17
+//@ ensures[C17] initExpr != nil && initExpr.NodeType == ast.TypeListLiteral ==> lcN() == 1 && lcArg(0) == pos && result == initExpr && initExpr.elem.(*ast.ListLiteral).RBracket == lcRes(0) && initExpr.elem.(*ast.ListLiteral).LBracket == old(initExpr.elem.(*ast.ListLiteral).LBracket)
+//@ func (*parser).newMapLiteralStart
+//@ props C17
+//@ ensures[C17] lcN() == 1 && lcArg(0) == pos && result != nil && result.NodeType == ast.TypeMapLiteral && result.elem.(*ast.MapLiteral).LBrace == lcRes(0)
+//@ func (*parser).newMapLiteralEnd
+//@ props C17
+//@ ensures[C17] initExpr != nil && initExpr.NodeType == ast.TypeMapLiteral ==> lcN() == 1 && lcArg(0) == pos && result == initExpr && initExpr.elem.(*ast.MapLiteral).RBrace == lcRes(0) && initExpr.elem.(*ast.MapLiteral).LBrace == old(initExpr.elem.(*ast.MapLiteral).LBrace)
+//@ func (*parser).newNumberLiteral
+//@ props C17
+//@ ensures[C17] result != nil ==> lcN() == 1 && lcArg(0) == v.Pos
+//@ ensures[C17] result != nil && result.NodeType == ast.TypeIntegerLiteral ==> result.elem.(*ast.IntegerLiteral).Start == lcRes(0)
+//@ ensures[C17] result != nil && result.NodeType == ast.TypeFloatLiteral ==> result.elem.(*ast.FloatLiteral).Start == lcRes(0)
+//@ func (*parser).newBlockStmt
+//@ props C17
+//@ ensures[C17] lcN() == 2 && lcArg(0) == lBrace.Pos && lcArg(1) == rBrace.Pos && result != nil && result.LBracePos == lcRes(0) && result.RBracePos == lcRes(1)
+//@ func (*parser).newBreakStmt
+//@ props C17
+//@ ensures[C17] lcN() == 1 && lcArg(0) == pos && result != nil && result.NodeType == ast.TypeBreakStmt && result.elem.(*ast.BreakStmt).Start == lcRes(0)
+//@ func (*parser).newContinueStmt
+//@ props C17
+//@ ensures[C17] lcN() == 1 && lcArg(0) == pos && result != nil && result.NodeType == ast.TypeContinueStmt && result.elem.(*ast.ContinueStmt).Start == lcRes(0)
+//@ func (*parser).newConditionalExpr
+//@ props C17
+//@ ensures[C17] lcN() == 1 && lcArg(0) == op.Pos && result != nil && result.NodeType == ast.TypeConditionalExpr && result.elem.(*ast.ConditionalExpr).OpPos == lcRes(0)
+//@ func (*parser).newInExpr
+//@ props C17
+//@ ensures[C17] lcN() == 1 && lcArg(0) == inOp.Pos && result != nil && result.NodeType == ast.TypeInExpr && result.elem.(*ast.InExpr).OpPos == lcRes(0)
+//@ func (*parser).newAssignmentStmt
+//@ props C17
+//@ ensures[C17] lcN() == 1 && lcArg(0) == op.Pos && result != nil && result.NodeType == ast.TypeAssignmentExpr && result.elem.(*ast.AssignmentExpr).OpPos == lcRes(0)
+//@ func (*parser).newArithmeticExpr
+//@ props C17
+//@ ensures[C17] result != nil ==> lcN() == 1 && lcArg(0) == op.Pos && result.NodeType == ast.TypeArithmeticExpr && result.elem.(*ast.ArithmeticExpr).OpPos == lcRes(0)
+//@ func (*parser).newIfElem
+//@ props C17
+//@ ensures[C17] result != nil ==> lcN() == 1 && lcArg(0) == ifTk.Pos && result.Start == lcRes(0)
+//@ func (*parser).newCallExpr
+//@ props C17
+//@ ensures[C17] result != nil ==> lcN() == 2 && lcArg(0) == lParen.Pos && lcArg(1) == rParen.Pos && result.NodeType == ast.TypeCallExpr && result.elem.(*ast.CallExpr).LParen == lcRes(0) && result.elem.(*ast.CallExpr).RParen == lcRes(1)
